@@ -288,7 +288,7 @@ pub fn run(ctx: &mut Ctx) {
         });
     }
 
-    let per_type = ctx.tier.pick(20_000u32, 2_000_000u32);
+    let per_type = ctx.tier.pick(20_000u32, 12_000_000u32);
     for (ty, n) in TYPES {
         let ty_s = ty.to_string();
         let strat = proptest::collection::vec(lat64(), *n..=*n).prop_map(move |f| VCase { ty: ty_s.clone(), f });
